@@ -125,8 +125,41 @@ def run(ctx):
                                lambda cell, n=n, xty=xty: [px_arg(xty, n, cell[0][0], cell[0][1], 0)],
                                [cells], sp(px), 32, gargs=g, flat=flat1, key_label='%s::%s' % (xty.name, nm))
                 tot += decided(st)
+    # small widths exhaustively: every pair of N-bit patterns for + - * / and every pattern for sqrt / round, singly (enumeration of singleton
+    # cells): for these N the closure of the low bits and the N-bit rounding are decided for all operands
+    import gcr as _gcr
+    pair_ns = [n for n in ns(ctx) if n <= (6 if ctx.tier == 'quick' else 8)]
+    un_ns = [n for n in ns(ctx) if n <= (12 if ctx.tier == 'quick' else 16)]
+    nexh = 0
+    for xty in XTYS:
+        for n in sorted(set(pair_ns + un_ns)):
+            px = xty.px(n)
+            g = {'N': n}
+            fmt = _gcr.PTy('%s<%d>' % (xty.name, n), xty.tykey, n, xty.es)
+            sh_ = 32 - n
+            mk = (lambda pt, n=n, xty=xty: [px_arg(xty, n, x, x, i) for i, x in enumerate(pt)])
+            if n in pair_ns:
+                pairs = [(a, b) for a in range(1 << n) for b in range(1 << n)]
+                for tr, (nm, f) in BIN.items():
+                    path, _ = prog.find_impl_method(tr, xty.tykey, nm)
+                    if path:
+                        pjobs.append(dict(rule='GCR', label='%s<%d>::%s' % (xty.name, n, nm), path=path, pty=fmt, points=pairs,
+                                          spec=(lambda xs, px=px, f=f, sh_=sh_: spec_n(px, f, 2)([x << sh_ for x in xs])), gargs=g,
+                                          key_label='%s::%s' % (xty.name, nm), mkargs=mk, out_bits=32))
+                        nexh += len(pairs)
+            if n in un_ns:
+                for nm, sp in (('sqrt', sqrt_spec), ('round', round_spec)):
+                    path = prog.inherent(xty.tykey, nm)
+                    if path:
+                        pjobs.append(dict(rule='GCR', label='%s<%d>::%s' % (xty.name, n, nm), path=path, pty=fmt, points=[(a,) for a in range(1 << n)],
+                                          spec=(lambda xs, px=px, sp=sp, sh_=sh_: sp(px)([x << sh_ for x in xs])), gargs=g,
+                                          key_label='%s::%s' % (xty.name, nm), mkargs=mk, out_bits=32))
+                        nexh += 1 << n
+    ctx.count('small_width_points_enumerated', nexh)
+    ctx.rules.append('singleton cells: every operand pair of + - * / for N <= %d and every operand of sqrt / round for N <= %d among the analysed widths'
+                     % (max(pair_ns), max(un_ns)))
     from props.common import run_points_parallel
-    run_points_parallel(ctx, prog, pjobs)
+    run_points_parallel(ctx, prog, pjobs, chunk=1024)
     # R10 with one symbolic operand on the generic-width kernels (same families as C01 / C05): PxE2 for + - * / and the fused family, PxE1 for * /
     # (PxE1's + - and fused kernels are known to be wrong - see the known findings - and are left to the R2 cells above)
     import rules_rounding as RR
